@@ -277,6 +277,13 @@ class Check:
             print(f"UNDECIDED property={self.prop} {u}")
         for f in self.faults:
             print(f"CHECKER-FAULT property={self.prop} {f}")
+        from .calls import INLINED, SUMMARIZED
+        for q in sorted(INLINED):
+            if q not in self.functions:
+                self.functions[q] = "executed (real body run symbolically, inlined at its call sites on the paths explored; covered by the callers' obligations)"
+        for q in sorted(SUMMARIZED):
+            if q not in self.functions:
+                self.functions[q] = "contract used at call sites"
         coverage = {
             "obligations": n_obl, "discharged": n_dis,
             "checker_cmd": f"python3-vt -m pyvc check {self.prop} --tier {self.tier}",
